@@ -725,6 +725,9 @@ def op_alphabet(shape, level="full"):
         ops += [("addmany", "g", b), ("removemany", "g", b)]
     ops += [("addmany", "p", [P[0], P[1]]), ("removemany", "p", [P[0], P[1]])]
     ops += [("removefiltered", "g", 0, [G[0][0]]), ("removefiltered", "g", 1, [G[0][1]]), ("removefiltered", "g", 0, ["nobody"]), ("removefiltered", "p", 0, [P[0][0]])]
+    # filters with leading / interior / trailing wildcards and a non-zero field index
+    ops += [("removefiltered", "p", 0, ["", P[0][1]]), ("removefiltered", "p", 0, [P[0][0], "", P[0][-1]] if len(P[0]) == 3 else [P[0][0], "", P[0][2]]),
+            ("removefiltered", "p", 1, [P[1][1], ""]), ("removefiltered", "g", 0, ["", G[0][1]]), ("removefiltered", "p", 0, ["", ""])]
     ops += [("delete_user", "alice"), ("delete_role", "admin"), ("delete_roles_for_user", "alice"), ("delete_role_for_user", "alice", "admin") if shape != "dom" else ("delete_roles_for_user_in_domain", "alice", "admin", "d1")]
     if shape != "dom":
         ops += [("add_role_for_user", "bob", "root")]
